@@ -667,8 +667,16 @@ impl CompositionGraph {
             Ok(())
         })?;
 
-        // Add dependency edges to any existing defined types that reference this one
-        for (other_ty, other) in &self.defined {
+        // Add dependency edges to any existing defined types that reference this one;
+        // visit them in node order so that the edge order (and with it the order of
+        // the encoded definitions) does not depend on hash map iteration order
+        let mut others = self
+            .defined
+            .iter()
+            .map(|(ty, index)| (*ty, *index))
+            .collect::<Vec<_>>();
+        others.sort_by_key(|(_, index)| *index);
+        for (other_ty, other) in &others {
             other_ty.visit_defined_types(&self.types, &mut |_, id| {
                 let dep_ty = Type::Value(ValueType::Defined(id));
                 if dep_ty == ty
